@@ -124,7 +124,7 @@ FIXED_TAGS = [{"k": "a"}, {}, {"k": None}, {"k": "b"}]
 FIXED_FIELDS = [{"f": 1}, {}, {"f": None}, {"f": -2}]
 
 
-TAG_ALPHAS = {"full": SYM, "small": ("absent", "a", "b"), "sel": ("a", "b"), "none": ("absent", None, "a")}
+TAG_ALPHAS = {"full": SYM, "small": ("absent", "a", "b"), "sel": ("a", "b"), "none": ("absent", None, "a"), "cr": ("a\rb", "c\r\nd", "a")}
 
 
 def pspec(i, used, torder, alpha="full"):
@@ -194,6 +194,8 @@ def h_hist(params):
         if params.get("reopen"):
             apply_op(h, ("reopen",))
         h.check_contents("contents before reads")
+        # an index that is valid but differs from a rebuild would answer SOME query wrongly
+        h.check_inv("before reads")
         qd = h.q(qd0)
         h.check_reads(qd, params.get("mfilter"))
         if params.get("twin"):
@@ -267,6 +269,11 @@ def obligations(tier):
                     obs.append(
                         _ob(f"hist/{scen}/{q_repr(q)}/{cname}/{to}", q, scen, ai, rx, torder=to, alpha="small" if thorough else "sel", budget=600 if thorough else 60, split_op=True)
                     )
+    # measurement filter after index maintenance (remove / drop / update renumber positions)
+    for scen in ("rm", "rm_ins", "drop", "upd", "rm_time"):
+        for mf in ("m", "n"):
+            for q in (B, ("meas", "!=", "zz")):
+                obs.append(_ob(f"hist-mfilter/{scen}/{mf}/{q_repr(q)}/ai", q, scen, True, False, mfilter=mf, torder="sym" if scen == "rm_time" else "ooo", alpha="sel", also=["meas"]))
     # measurement filter: present / other / absent names
     for mf in ("m", "n", "zz"):
         for q in (A, B, ("not", C), ("meas", "==", "m")):
